@@ -1,6 +1,8 @@
 package main
 
 import (
+	"path"
+	"strconv"
 	"fmt"
 	"go/types"
 	"strings"
@@ -69,6 +71,24 @@ func installModels(e *Engine) {
 		id := e.newObj(c, &Obj{Val: ArrayV{el}})
 		return SliceV{[]SliceAlt{{TTrue, id, 0, BV(64, uint64(len(el))), len(el)}}}, true
 	}
+	e.intercept["strings.Join"] = func(e *Engine, fr *Frame, c *Ctx, a []Value, cc *ssa.CallCommon) (Value, bool) {
+		sv := a[0].(SliceV)
+		sep := a[1].(StrV)
+		if len(sv.Alts) != 1 || !sv.Alts[0].Len.IsConst() {
+			unsup("strings.Join model: slice of symbolic length (%d alts, len %v)", len(sv.Alts), sv.Alts[0].Len.ref())
+		}
+		sa := sv.Alts[0]
+		n := int(sa.Len.val)
+		if n == 0 {
+			return StrC(""), true
+		}
+		arr := e.arr(c, sa.Obj)
+		res := arr.E[sa.Off].(StrV)
+		for i := 1; i < n; i++ {
+			res = strConcat(strConcat(res, sep), arr.E[sa.Off+i].(StrV))
+		}
+		return res, true
+	}
 	e.intercept["strings.HasPrefix"] = func(e *Engine, fr *Frame, c *Ctx, a []Value, cc *ssa.CallCommon) (Value, bool) {
 		s, p := fl(a[0].(StrV)), a[1].(StrV)
 		ps, ok := p.Concrete()
@@ -91,27 +111,44 @@ func installModels(e *Engine) {
 	e.intercept["path.Dir"] = func(e *Engine, fr *Frame, c *Ctx, a []Value, _ *ssa.CallCommon) (Value, bool) {
 		s := a[0].(StrV)
 		if s.R == nil || len(s.R.Toks) < 2 {
-			unsup("path.Dir model needs a rope with >= 2 tokens")
+			if cs, ok := s.Concrete(); ok {
+				return StrC(path.Dir(cs)), true
+			}
+			unsup("path.Dir model needs a rope with >= 2 tokens (rope: %v)", s.R != nil)
 		}
 		r := &Rope{Toks: s.R.Toks[:len(s.R.Toks)-1]}
 		return StrV{Len: ropeLen(r), R: r}, true
 	}
 	e.intercept["strconv.Atoi"] = func(e *Engine, fr *Frame, c *Ctx, a []Value, _ *ssa.CallCommon) (Value, bool) {
-		s, ok := a[0].(StrV).Concrete()
-		if !ok {
-			return TupleV{[]Value{IntV{BV(64, 0)}, mkErr(StrC("not a number"))}}, true
-		}
-		n := 0
-		for _, ch := range s {
-			if ch < '0' || ch > '9' {
-				return TupleV{[]Value{IntV{BV(64, 0)}, mkErr(StrC("not a number"))}}, true
+		errV := mkErr(StrC("strconv.Atoi: invalid syntax"))
+		if s, ok := a[0].(StrV).Concrete(); ok {
+			n, err := strconv.Atoi(s)
+			if err != nil {
+				return TupleV{[]Value{IntV{BV(64, 0)}, errV}}, true
 			}
-			n = n*10 + int(ch-'0')
+			return TupleV{[]Value{IntV{BV(64, uint64(int64(n)))}, nilIface()}}, true
 		}
-		if s == "" {
-			return TupleV{[]Value{IntV{BV(64, 0)}, mkErr(StrC("not a number"))}}, true
+		f := fl(a[0].(StrV))
+		if len(f.B) > 6 {
+			unsup("strconv.Atoi model: symbolic string longer than 6 bytes")
 		}
-		return TupleV{[]Value{IntV{BV(64, uint64(n))}, nilIface()}}, true
+		// digits only (a leading sign is outside the model: asserted below)
+		valid := Not(Eq(f.Len, BV(64, 0)))
+		var val *Term = BV(64, 0)
+		for i, b := range f.B {
+			live := Ult(BV(64, uint64(i)), f.Len)
+			isDigit := And(Ule(BV(8, '0'), b), Ule(b, BV(8, '9')))
+			valid = And(valid, Or(Not(live), isDigit))
+			d := Resize(Sub(b, BV(8, '0')), 64, false)
+			val = Ite(live, Add(mulConst10(val), d), val)
+		}
+		if len(f.B) > 0 {
+			sign := And(Ult(BV(64, 0), f.Len), Or(Eq(f.B[0], BV(8, '+')), Eq(f.B[0], BV(8, '-'))))
+			e.Obls = append(e.Obls, Obligation{Kind: "assert", ID: "engine: strconv.Atoi model does not handle a sign on a symbolic string", Cond: And(c.S.PC, sign)})
+		}
+		ok := TupleV{[]Value{IntV{withIv(val, 0, 999999)}, nilIface()}}
+		bad := TupleV{[]Value{IntV{BV(64, 0)}, errV}}
+		return mergeV(valid, ok, bad), true
 	}
 	// spec.ExpandSpec with SkipSchemas on documents without param/response/pathitem refs: identity (spike)
 	e.intercept["github.com/go-openapi/spec.ExpandSpec"] = func(e *Engine, fr *Frame, c *Ctx, a []Value, _ *ssa.CallCommon) (Value, bool) {
@@ -556,4 +593,12 @@ func resOrLen(res *Term, a, b StrV, n int) *Term {
 		return Ult(a.Len, b.Len)
 	}
 	return res
+}
+
+// mulConst10: 10*x as shifts and adds (keeps the bit-blasted formula small)
+func mulConst10(x *Term) *Term {
+	if x.IsConst() {
+		return BV(64, x.val*10)
+	}
+	return Add(BinBV(OShl, x, BV(64, 3)), BinBV(OShl, x, BV(64, 1)))
 }
